@@ -315,7 +315,9 @@ fn exec(c: &ShutCase, env: &Env) -> Outcome {
             // a client that was idle (everything it sent had been answered) leaves no unread input
             // in the server's socket, so the server's close is an orderly one: end of stream, never
             // a connection reset
-            if c.clients[ci].kind % 8 == 0 && r.reset {
+            // (only for clients that had at least one round trip: a connection that is still in the
+            // listen backlog when the listener closes is reset by the kernel, legitimately)
+            if c.clients[ci].kind % 8 == 0 && r.reset && !r.replies.is_empty() {
                 verdict = Some((
                     "idle-connection-reset".into(),
                     format!(
